@@ -41,7 +41,7 @@ func fast(c *serf.Config) {
 	m.TCPTimeout = 300 * time.Millisecond
 	m.IndirectChecks = 1
 	c.ReconnectInterval = 100 * time.Millisecond
-	c.ReapInterval = time.Hour
+	c.ReapInterval = 200 * time.Millisecond // the reaper runs; tombstone / reconnect timeouts stay at 24h / 48h
 	c.BroadcastTimeout = 500 * time.Millisecond
 	c.LeavePropagateDelay = 60 * time.Millisecond
 	c.ValidateNodeNames = false
